@@ -63,15 +63,114 @@ class Flow:
             return None
         return self.rd.reaching(name_node.id, node)
 
-    def def_value(self, name_node):
-        """Value expression of the unique reaching plain assignment."""
+    def def_value(self, name_node, mutable_ok=False):
+        """Value expression of the unique reaching plain assignment.
+
+        The value is only "the value of the name at this use" if the object is
+        not changed in place between the assignment and the use (`x[1:] &= m`,
+        `x[i] = v`, `x.sort()`, `np.add(a, b, out=x)`): unless the caller models
+        those itself (mutable_ok=True) such a name has no known value."""
         defs = self.reaching_defs(name_node)
         if not defs or len(defs) != 1:
             return None
         d = next(iter(defs))
         if d == ENTRY:
             return None
-        return assigned_value(self.cfg, d, name_node.id)
+        v = assigned_value(self.cfg, d, name_node.id)
+        if v is None or mutable_ok:
+            return v
+        if self.mutations_between(name_node.id, d, self.cfg.node_containing(name_node)):
+            return None
+        return v
+
+    MUTATORS = frozenset(("append", "extend", "insert", "remove", "pop", "clear", "sort", "reverse", "update", "add", "discard",
+                          "setdefault", "popitem", "fill", "resize", "put", "itemset", "partition", "setflags", "difference_update",
+                          "intersection_update", "symmetric_difference_update", "appendleft", "popleft"))
+
+    def _mutation_sites(self, name):
+        key = ("mut", name)
+        cache = self.__dict__.setdefault("_mutcache", {})
+        if key in cache:
+            return cache[key]
+
+        def root(n):
+            while isinstance(n, (ast.Subscript, ast.Attribute)):
+                n = n.value
+            return n.id if isinstance(n, ast.Name) else None
+
+        out = []
+        for st in ast.walk(self.f.node):
+            if not isinstance(st, ast.stmt) or isinstance(st, (ast.FunctionDef, ast.AsyncFunctionDef, ast.ClassDef)):
+                continue
+            if enclosing_func(st) is not self.f.node:
+                continue
+            hit = False
+            tg = []
+            if isinstance(st, ast.Assign):
+                tg = list(st.targets)
+            elif isinstance(st, (ast.AugAssign, ast.AnnAssign)):
+                tg = [st.target]
+            elif isinstance(st, ast.Delete):
+                tg = list(st.targets)
+            for t in tg:
+                for e in (t.elts if isinstance(t, (ast.Tuple, ast.List)) else [t]):
+                    if isinstance(e, (ast.Subscript, ast.Attribute)) and root(e) == name:
+                        hit = True
+            if not hit:
+                # header expressions of compound statements and whole simple statements
+                exprs = [st]
+                if isinstance(st, (ast.If, ast.While)):
+                    exprs = [st.test]
+                elif isinstance(st, (ast.For, ast.AsyncFor)):
+                    exprs = [st.iter]
+                elif isinstance(st, (ast.With, ast.AsyncWith)):
+                    exprs = [i.context_expr for i in st.items]
+                elif isinstance(st, ast.Try):
+                    exprs = []
+                for ex in exprs:
+                    for c in ast.walk(ex):
+                        if isinstance(c, ast.Call):
+                            if isinstance(c.func, ast.Attribute) and c.func.attr in self.MUTATORS and root(c.func.value) == name \
+                                    and isinstance(c.func.value, ast.Name):
+                                hit = True
+                            for k in c.keywords:
+                                if k.arg == "out" and root(k.value) == name:
+                                    hit = True
+            if hit:
+                n = self.cfg.node(st)
+                if n is not None:
+                    out.append((n, st))
+        cache[key] = out
+        return out
+
+    def _reach(self, a):
+        cache = self.__dict__.setdefault("_reachcache", {})
+        if a in cache:
+            return cache[a]
+        seen = set()
+        stack = list(self.cfg.succ.get(a, ()))
+        while stack:
+            x = stack.pop()
+            if x in seen:
+                continue
+            seen.add(x)
+            stack.extend(self.cfg.succ.get(x, ()))
+        cache[a] = seen
+        return seen
+
+    def mutations_between(self, name, defnode, usenode):
+        """Statements that change the object bound to `name` in place on some
+        path from its definition to the use."""
+        if usenode is None:
+            return []
+        out = []
+        after_def = self._reach(defnode)
+        for n, st in self._mutation_sites(name):
+            if n == defnode:
+                continue
+            if n in after_def and usenode in self._reach(n):
+                out.append(st)
+        return out
 
     def unique_def_node(self, name_node):
         defs = self.reaching_defs(name_node)
